@@ -316,7 +316,8 @@ pub fn run(rep: &mut Report, rng: &mut Rng, thorough: bool) {
                     let pb = props / 45;
                     let lp = (props % 45) / 9;
                     let lc = props % 9;
-                    if size <= u64::MAX / 2 || size == u64::MAX {
+                    if size <= cap as u64 || size == u64::MAX {
+                        // (a declared size far beyond the cap would make the MODEL loop on zeros past the end of the input: its fuel is the declared size)
                         rep.model(
                             format!("lzma.dec fmt=raw lc={lc} lp={lp} pb={pb} dict={dict} size={} preset=- in={} cap={cap} reenc=0", if size == u64::MAX { "-".to_string() } else { size.to_string() }, hex(&m)),
                             match &o { Outcome::Ok((out, used)) => format!("ok {} {} {} -", out.len(), fnv(out), used), other => canon_simple(other) },
